@@ -60,3 +60,14 @@ CORPUS = [
 CORPUS += [
     M("v3-size-from-untrimmed-buffer-imported", L, 'total_size = int.from_bytes(buf[2:4], "big") + 8', 'total_size = int.from_bytes(self._buffer[2:4], "big") + 8'),
 ]
+# round 4 (C08.d): nothing dereferences the protocol object where it can be None
+CORPUS += [
+    M("alive-derefs-missing-protocol", L, "        if self._protocol is None or not self._protocol.alive:\n            return False",
+      "        if not self._protocol.alive:\n            return False"),
+    M("expiry-log-before-none-test", L, "        if self._protocol is None or not self._protocol.alive:\n            return False",
+      "        _LOGGER.debug(\"Checking %s.\", self._protocol.peer)\n        if self._protocol is None or not self._protocol.alive:\n            return False"),
+    M("n-none-test-split", L, "        if self._protocol is None or not self._protocol.alive:\n            return False",
+      "        if self._protocol is None:\n            return False\n        if not self._protocol.alive:\n            return False", "S"),
+    M("n-truthiness-guard", L, "        if self._protocol is None or not self._protocol.alive:\n            return False",
+      "        if not (self._protocol and self._protocol.alive):\n            return False", "S"),
+]
